@@ -199,3 +199,51 @@ func longString(prefix string, n int) string {
 	}
 	return prefix + strings.Repeat("x", n-len(prefix))
 }
+
+// formatsBoundary creates, once per history and inside the open block, state rows at the edges of
+// the identifier/format validators, so that a following genesis round trip validates them: for
+// credit type abbreviations of 1, 2 and 3 letters (added by governance if missing) a class, a
+// project with 256-byte metadata, a 32-byte reference id and a jurisdiction using all three regex
+// parts at maximal length, a batch with 256-byte metadata and 512-byte notes, baskets with names of
+// minimal (3) and maximal (8) length, and a deposit into one of them.
+func (g *G) formatsBoundary() {
+	if g.formatsDone || !g.App.BlockOpen() {
+		return
+	}
+	g.formatsDone = true
+	a := g.App
+	jur := "US-WA9 " + longString("Postal-Code 98225 ", 64)
+	for i, ab := range []string{"C", "KT", "BIO"} {
+		v := g.V()
+		if _, ok := v.CreditTypes[ab]; !ok {
+			g.Do(a.MsgAddCreditType(&base.CreditType{Abbreviation: ab, Name: "formats-" + strings.ToLower(ab), Unit: "unit", Precision: 6}), "formats: gov adds credit type "+ab)
+		}
+		admin := i % NumUsers
+		if v.AllowlistOn && !v.Creators[keyOf(admin)] {
+			g.Do(a.MsgAddClassCreator(admin), "formats: gov allows the creator")
+		}
+		res := g.Do(a.MsgCreateClass(admin, []int{admin}, longString("class-metadata-", 256), ab, g.classFeeCoin()), "formats: class of a "+fmt.Sprint(len(ab))+"-letter credit type, 256-byte metadata")
+		cid := respField(res, "class_id")
+		if cid == "" {
+			continue
+		}
+		res = g.Do(a.MsgCreateProject(admin, cid, longString("project-metadata-", 256), jur, longString("REFERENCE-ID-", 32), nil), "formats: project with maximal metadata, reference id and jurisdiction")
+		pid := respField(res, "project_id")
+		if pid == "" {
+			continue
+		}
+		res = g.Do(a.MsgCreateBatch(admin, pid, "", []*base.BatchIssuance{
+			{Recipient: a.Addr(admin), TradableAmount: "100", RetiredAmount: "1", RetirementJurisdiction: jur, RetirementReason: longString("reason-", 512)},
+		}, longString("batch-metadata-", 256), date(2020, 2, 29), date(2021, 2, 28), true,
+			&base.OriginTx{Id: longString("ORIGIN-", 128), Source: longString("source-", 32), Note: longString("note-", 512)}), "formats: batch with maximal metadata, notes and origin tx fields")
+		denom := respField(res, "batch_denom")
+		min := []string{"Aa1", "Bb2", "Cc3"}[i]
+		max := []string{"Maxname1", "Maxname2", "Maxname3"}[i]
+		g.Do(a.MsgBasketCreate(admin, min, longString("description-", 256), ab, []string{cid}, true, nil, g.basketFee(g.V())), "formats: basket with a 3-character name for credit type "+ab)
+		res = g.Do(a.MsgBasketCreate(admin, max, "d", ab, []string{cid}, false, nil, g.basketFee(g.V())), "formats: basket with an 8-character name for credit type "+ab)
+		if bd := respField(res, "basket_denom"); bd != "" && denom != "" {
+			g.Do(a.MsgBasketPut(admin, bd, chain.BasketCredit(denom, "1.5")), "formats: deposit into "+bd)
+		}
+		g.bump("formats-boundary:" + ab)
+	}
+}
